@@ -67,7 +67,7 @@ def enumerate_cases(tier, seed):
     for d, t, m, dv, order in itertools.product(DEFINERS, TARGETS, MODES, DERIVERS, ("ref_first", "deriver_first")):
         if dv in ("item_ancestor", "item_nested") and len(d) == 1:
             continue
-        fs = follow if tier == "thorough" else [follow[(n + seed) % len(follow)], "none"]
+        fs = follow
         for f in dict.fromkeys(fs):
             yield {"definer": list(d), "target": t, "mode": m, "deriver": dv, "order": order, "follow": f}
         n += 1
